@@ -1,5 +1,5 @@
 (** Lemmas about the model of plural merging (property C05). *)
-From Coq Require Import List NArith Bool Arith Lia.
+From Coq Require Import List NArith Bool Arith Lia Permutation.
 Import ListNotations.
 From LI Require Import Base.StrOps Parser.Plurals.
 Open Scope N_scope.
@@ -1620,3 +1620,118 @@ Lemma static_select_other_args : forall (locale operand : Type) cat (top dflt : 
   resolve_count_ref locale operand cat top dflt r other forms (CountVar k) = SRename k /\
   resolve_count_ref locale operand cat top dflt r other forms CountInvalid = SInvalid top.
 Proof. intros. split; reflexivity. Qed.
+
+(** * UnusedForm warnings of a whole project: exactly once per locale, independent of the locale order *)
+
+Fixpoint fsorted (m : list (form * N)) : Prop :=
+  match m with
+  | [] => True
+  | (f, _) :: r => (forall x, In x (map fst r) -> form_ltb f x = true) /\ fsorted r
+  end.
+Lemma form_ltb_trans : forall a b c, form_ltb a b = true -> form_ltb b c = true -> form_ltb a c = true.
+Proof. intros a b c. unfold form_ltb. rewrite !Nat.ltb_lt. lia. Qed.
+Lemma form_ltb_total : forall a b, form_ltb a b = false -> form_eqb a b = false -> form_ltb b a = true.
+Proof. intros a b. unfold form_ltb, form_eqb. rewrite Nat.ltb_ge, Nat.eqb_neq, Nat.ltb_lt. lia. Qed.
+Lemma form_ltb_irrefl : forall a, form_ltb a a = false.
+Proof. intros a. unfold form_ltb. apply Nat.ltb_irrefl. Qed.
+
+Lemma keys_finsert : forall x f v m, In x (map fst (finsert f v m)) <-> x = f \/ In x (map fst m).
+Proof.
+  intros x f v m. induction m as [|[f2 v2] r IH]; cbn [finsert map fst In]; [intuition|].
+  destruct (form_ltb f f2); [cbn [map fst In]; intuition|]. destruct (form_eqb f f2) eqn:E; cbn [map fst In].
+  - apply form_eqb_eq in E. subst. intuition.
+  - rewrite IH. intuition.
+Qed.
+Lemma finsert_fsorted : forall f v m, fsorted m -> fsorted (finsert f v m).
+Proof.
+  intros f v m. induction m as [|[f2 v2] r IH]; intros H; cbn [finsert].
+  - cbn [fsorted map In]. split; [intros x []|exact I].
+  - destruct H as [Hlb Hr]. destruct (form_ltb f f2) eqn:E1.
+    + cbn [fsorted]. split; [|split; assumption]. intros x [<- | Hx]; [exact E1|].
+      apply (form_ltb_trans f f2 x); [exact E1 | apply Hlb; exact Hx].
+    + destruct (form_eqb f f2) eqn:E2.
+      * apply form_eqb_eq in E2. subst f2. cbn [fsorted]. split; assumption.
+      * cbn [fsorted]. split; [|apply IH; exact Hr]. intros x Hx. apply keys_finsert in Hx. destruct Hx as [-> | Hx].
+        -- apply form_ltb_total; assumption.
+        -- apply Hlb. exact Hx.
+Qed.
+Lemma build_forms_fsorted : forall others acc, fsorted acc -> fsorted (build_forms others acc).
+Proof.
+  induction others as [|m r IH]; intros acc H; cbn [build_forms fold_left]; [exact H|].
+  apply (IH (finsert (m_form m) (m_id m) acc)). apply finsert_fsorted. exact H.
+Qed.
+Lemma fsorted_NoDup : forall m, fsorted m -> NoDup (map fst m).
+Proof.
+  induction m as [|[f v] r IH]; intros H; cbn [map]; [constructor|]. destruct H as [Hlb Hr].
+  constructor; [|apply IH; exact Hr]. intros Hin. specialize (Hlb f Hin). rewrite form_ltb_irrefl in Hlb. discriminate.
+Qed.
+
+Lemma NoDup_app_intro : forall (A : Type) (l1 l2 : list A),
+  NoDup l1 -> NoDup l2 -> (forall x, In x l1 -> ~ In x l2) -> NoDup (l1 ++ l2).
+Proof.
+  intros A l1 l2 H1 H2 Hd. induction l1 as [|a r IH]; cbn [app]; [exact H2|].
+  inversion H1 as [|? ? Hn Hr]; subst. constructor.
+  - intros Hin. apply in_app_or in Hin. destruct Hin as [Hin | Hin]; [contradiction|]. apply (Hd a); [left; reflexivity | exact Hin].
+  - apply IH; [exact Hr|]. intros x Hx. apply Hd. right. exact Hx.
+Qed.
+
+Lemma unused_NoDup : forall cats path r forms, NoDup (map fst forms) -> NoDup (unused cats path r forms).
+Proof.
+  intros cats path r forms. unfold unused. induction forms as [|[f v] rest IH]; cbn [map filter fst]; intros H; [constructor|].
+  inversion H as [|? ? Hn Hr]; subst. destruct (negb (existsb (form_eqb f) (cats r))); [|apply IH; exact Hr].
+  cbn [map fst]. constructor; [|apply IH; exact Hr]. intros Hin. apply in_map_iff in Hin. destruct Hin as [[f2 v2] [Heq Hin]].
+  cbn [fst] in Heq. inversion Heq; subst. apply filter_In in Hin. apply Hn. apply in_map_iff. exists (f, v2). split; [reflexivity | apply Hin].
+Qed.
+
+Lemma group_warns_NoDup : forall cats path bg, NoDup (group_warns cats path bg).
+Proof.
+  intros cats path bg. unfold group_warns. destruct (group_mergeable (snd bg)); [|constructor].
+  destruct (remove_first_other (snd bg)) as [[o others]|]; [|constructor].
+  apply unused_NoDup. apply fsorted_NoDup. apply build_forms_fsorted. exact I.
+Qed.
+Lemma group_warns_path : forall cats path bg w, In w (group_warns cats path bg) -> fst (fst w) = path ++ [fst bg].
+Proof.
+  intros cats path bg w H. unfold group_warns in H. destruct (group_mergeable (snd bg)); [|destruct H].
+  destruct (remove_first_other (snd bg)) as [[o others]|]; [|destruct H]. destruct w as [[p f] r].
+  apply unused_correct in H. cbn [fst]. apply H.
+Qed.
+
+Lemma ssorted_keys_NoDup : forall (A : Type) (m : list (str * A)), ssorted m -> NoDup (map fst m).
+Proof.
+  induction m as [|[k v] r IH]; intros H; cbn [map]; [constructor|]. destruct H as [Hlb Hr].
+  constructor; [|apply IH; exact Hr]. intros Hin. specialize (Hlb k Hin). rewrite str_ltb_irrefl in Hlb. discriminate.
+Qed.
+
+Lemma flat_group_warns_NoDup : forall cats path (G : gmap), NoDup (map fst G) -> NoDup (flat_map (group_warns cats path) G).
+Proof.
+  intros cats path G. induction G as [|bg r IH]; cbn [map flat_map]; intros H; [constructor|].
+  inversion H as [|? ? Hn Hr]; subst. apply NoDup_app_intro; [apply group_warns_NoDup | apply IH; exact Hr |].
+  intros w Hw Hin. apply in_flat_map in Hin. destruct Hin as [bg' [Hbg' Hw']].
+  apply group_warns_path in Hw. apply group_warns_path in Hw'. rewrite Hw in Hw'. apply app_inv_head in Hw'.
+  inversion Hw' as [Heq]. apply Hn. rewrite Heq. apply in_map. exact Hbg'.
+Qed.
+
+Lemma level_warnings_NoDup : forall is_key cats path ks out ws, NoDup (map fst ks) ->
+  merge_level is_key cats path ks = ROk out ws -> NoDup ws.
+Proof.
+  intros is_key cats path ks out ws Hnd Hr. pose proof (merge_level_outcome is_key cats path ks Hnd) as H.
+  rewrite Hr in H. cbn [outcome app] in H. destruct H as [_ ->].
+  apply flat_group_warns_NoDup. apply ssorted_keys_NoDup. apply groups_sorted.
+Qed.
+
+(** C05_unused_project *)
+Theorem project_unused : forall is_key path (cl : list ((rule -> list form) * list (str * ival))),
+  (forall c, In c cl -> NoDup (map fst (snd c)) /\ exists out ws, merge_level is_key (fst c) path (snd c) = ROk out ws) ->
+  Forall2 (fun c ws => NoDup ws /\ forall w, In w ws <-> In w (expected_warnings (fst c) path (snd c)))
+          cl (project_warnings is_key path cl)
+  /\ forall cl', Permutation cl cl' ->
+                 Permutation (project_warnings is_key path cl) (project_warnings is_key path cl').
+Proof.
+  intros is_key path cl Hall. split.
+  - unfold project_warnings. induction cl as [|c r IH]; cbn [map]; constructor.
+    + destruct (Hall c (or_introl eq_refl)) as [Hnd [out [ws Hr]]]. rewrite Hr. split.
+      * apply (level_warnings_NoDup is_key (fst c) path (snd c) out ws Hnd Hr).
+      * apply (unused_level is_key (fst c) path (snd c) out ws Hnd Hr).
+    + apply IH. intros c' Hc'. apply Hall. right. exact Hc'.
+  - intros cl' Hp. unfold project_warnings. apply Permutation_map. exact Hp.
+Qed.
